@@ -9,8 +9,8 @@ enum { C_INFO0, C_SING, C_WARN, C_OTHER, C_EQN, C_EQR, C_EQC, C_EQB, C_TN, C_TT,
 static const char *const RAT[] = { "residual_over_allowance", "rcond_lower_slack_used", "berr_diff_over_allowance", "growth_diff_over_allowance", "residual_over_allowance_refined", NULL };
 
 /* ------------------------------------------------------------------ families */
-static const int VALS_X[] = { 1, 2, 3, 4, 5, 7 };
-static const int VALS_K[] = { 1, 2, 4, 7, 8, 9, 10, 11, 12 };   /* C12/C13: includes ill-conditioned and graded */
+static const int VALS_X[] = { 1, 2, 3, 4, 5, 7, 15 };
+static const int VALS_K[] = { 1, 2, 4, 7, 8, 9, 10, 11, 12, 15 };   /* C12/C13: includes ill-conditioned and graded */
 static const int CP3[] = { 0, 3, 2 };
 static const int TUNE_X[] = { 0, 3, 5 };
 static int g_mode;   /* 5, 12, 13: which property's configuration is decoded */
@@ -28,6 +28,7 @@ static void setA(const int *d, vcase *c)
     c->vals = (g_mode == 5 ? VALS_X[d[1]] : VALS_K[d[1]]); c->colperm = CP3[d[2]]; c->u = U_LIST[d[3]]; set_tune(c, TUNE_X[d[4]]); c->type = d[5];
     c->trans = d[6]; c->equil = d[7]; common_flags(c, d[8]); c->stor = d[9]; c->nrhs = 1 + 2 * d[10]; c->ldbx = d[10] * 2; c->rhs = (d[0] + d[1]) % 5; c->permid = -1;
     if (g_mode == 5) c->nrhs = 1 + d[10];
+    if (g_mode == 12) c->nrhs = d[10] ? 0 : 1;      /* B with no columns: factor, growth and condition estimate only */
 }
 /* B: ALL(4) x vals2 x trans3 x equil2 x stor2 x type4 (refine, ordering, tuning derived from the pattern index) */
 static void setB(const int *d, vcase *c)
@@ -62,13 +63,13 @@ static void setS4(const int *d, vcase *c)
 #define FAM_S { "ALL(1..3) incl. singular x {V0,V1,V6} x colperm3 x equil2 x type4 x tune3 x stor2 x trans3", 8, { N_ALL123, 3, 3, 2, 4, 3, 2, 3 }, setS }
 #define FAM_S4 { "ALL(4) incl. singular x {V0,V1,V6} x equil2 x type4 x tune3", 5, { N_ALL4, 3, 2, 4, 3 }, setS4 }
 #define FAM_S4q { "ALL(4) incl. singular x {V0,V1,V6} x equil2 x type4 x tune{0}", 5, { N_ALL4, 3, 2, 4, 1 }, setS4 }
-static const family FAM05[] = { FAM_A(6), FAM_B, FAM_C(6) }, FAM05q[] = { FAM_Aq(6), FAM_B, FAM_Cq(6) };
-static const family FAM12[] = { FAM_A(9), FAM_B, FAM_C(9), FAM_S, FAM_S4 }, FAM12q[] = { FAM_Aq(9), FAM_B, FAM_Cq(9), FAM_S, FAM_S4q };
-static const family FAM13[] = { FAM_A(9), FAM_B, FAM_C(9) }, FAM13q[] = { FAM_Aq(9), FAM_B, FAM_Cq(9) };
+static const family FAM05[] = { FAM_A(7), FAM_B, FAM_C(7) }, FAM05q[] = { FAM_Aq(7), FAM_B, FAM_Cq(7) };
+static const family FAM12[] = { FAM_A(10), FAM_B, FAM_C(10), FAM_S, FAM_S4 }, FAM12q[] = { FAM_Aq(10), FAM_B, FAM_Cq(10), FAM_S, FAM_S4q };
+static const family FAM13[] = { FAM_A(10), FAM_B, FAM_C(10) }, FAM13q[] = { FAM_Aq(10), FAM_B, FAM_Cq(10) };
 static const family FAM04X[] = { FAM_S, FAM_S4 }, FAM04Xq[] = { FAM_S, FAM_S4q };
 #define NF(F) ((int)(sizeof F / sizeof *F))
 /* other build variants (vendor BLAS, sanitizers): the ALL(1..3) and DEV_1 families only */
-static const family FAM05v[] = { FAM_Aq(6), FAM_Cq(6) }, FAM12v[] = { FAM_Aq(9), FAM_Cq(9), FAM_S }, FAM13v[] = { FAM_Aq(9), FAM_Cq(9) }, FAM04Xv[] = { FAM_S };
+static const family FAM05v[] = { FAM_Aq(7), FAM_Cq(7) }, FAM12v[] = { FAM_Aq(10), FAM_Cq(10), FAM_S }, FAM13v[] = { FAM_Aq(10), FAM_Cq(10) }, FAM04Xv[] = { FAM_S };
 #define DEFSPACE(tag, F, Fq, Fv, mode) \
     static const family *pick_##tag(int tier, int *nf) { if (strcmp(wk_variant, "ref")) { *nf = NF(Fv); return Fv; } if (tier) { *nf = NF(F); return F; } *nf = NF(Fq); return Fq; } \
     static long sz_##tag(int tier) { int nf; const family *f = pick_##tag(tier, &nf); return fam_total(f, nf); } \
